@@ -14,6 +14,9 @@ def indices(s: slice, length: int) -> tuple[int, int | None, int]:
         return s.indices(length)
     assert s.step < 0
     start, stop, step = s.indices(length)
+    if start < 0:
+        # Nothing is selected, but a start of -1 would be taken to mean the final element.
+        return 0, 0, step
     if stop < 0:
         stop = None
     return start, stop, step
@@ -21,14 +24,15 @@ def indices(s: slice, length: int) -> tuple[int, int | None, int]:
 def offset_slice_indices_lsb0(key: slice, length: int) -> slice:
     start, stop, step = indices(key, length)
     if step is not None and step < 0:
-        if stop is None:
-            new_start = start + 1
+        # The elements selected are start, start + step, ... stopping before stop (or at the beginning).
+        elements = len(range(start, -1 if stop is None else stop, step))
+        if elements == 0:
+            return slice(0, 0, key.step)
+        last_element = start + (elements - 1) * step
+        new_start = length - last_element - 1
+        new_stop = length - start - 1 + step
+        if new_stop < 0:
             new_stop = None
-        else:
-            first_element = start
-            last_element = start + ((stop + 1 - start) // step) * step
-            new_start = length - last_element
-            new_stop = length - first_element - 1
     else:
         first_element = start
         # The last element will usually be stop - 1, but needs to be adjusted if step != 1.
@@ -247,7 +251,10 @@ class BitStore:
     def setitem_lsb0(self, key: Union[int, slice], value: Union[int, BitStore], /) -> None:
         if isinstance(key, slice):
             new_slice = offset_slice_indices_lsb0(key, len(self))
-            self._bitarray.__setitem__(new_slice, value._logical_bitarray())
+            if isinstance(value, BitStore):
+                self._bitarray.__setitem__(new_slice, value._logical_bitarray())
+            else:
+                self._bitarray.__setitem__(new_slice, value)
         else:
             self._bitarray.__setitem__(-key - 1, value)
 
